@@ -18,6 +18,15 @@ CLAIMED = {
             "C15_roundtrip: decompress(build Ts) ids returns exactly the payload of row ids[k] of concat Ts for all Ts (empty sub-tables anywhere) and all id lists; "
             "the real compress_einsum2pmappings/decompress_pmappings are run on generated tables and every non-joining column of every result row is compared with its source row and with the model.",
             "Coq kernel; one payload per row in the model; pandas merge/concat semantics covered only by the correspondence"),
+    "C25": ("Coq proof (flatten = pruned document-order path, by mutual induction over trees) + differential correspondence on random Arch objects",
+            "C25_flatten_path/C25_shape/C25_missing hold for every tree and every compute name; the real Spec._get_flattened_architecture is compared with the vm_compute-evaluated model and with a Python oracle of the path.",
+            "Coq kernel; Array/Network nodes outside the model; pydantic construction and duplicate-name check covered by correspondence only"),
+    "C26": ("Coq proof (instance count = own fanout x fanouts of non-compute leaves above on the path, for every tree with distinct names) + differential correspondence",
+            "C26_totals proves the repaired traversal equal to the declarative instance count for all trees; C26_unrepaired_refuted records the defect; the real calculate_component_costs totals are compared with the model and oracle.",
+            "Coq kernel; explicit area/leak values (hwcomponents bypassed); Array/Network outside the model"),
+    "C27": ("Coq proof (value after any call history = base x factor exactly once; idempotence) + differential correspondence over call histories",
+            "C27_history_value / C27_idempotent for all components, flag sets and histories; C27_unrepaired_refuted records the defect; the real spec is costed 1-3 times with random flags and every value compared exactly with the model.",
+            "Coq kernel; explicit values, dyadic scales (exact float arithmetic); hwcomponents bypassed"),
 }
 
 PENDING_REASON = "check not built yet in this round (planned, see DESIGN.md section 6); not claimed until its proof and correspondence exist"
